@@ -96,6 +96,18 @@ def corpus(rng, quick):
         {"StartAt": "A", "States": {"A": T("fa", Catch=[{"ErrorEquals": ["EA"], "Next": "R"}], Next="R"), "R": T("fr")}},
         {"StartAt": "B", "States": {"B": T("fb")}}]}}}, {"x": 1},
         {"fa": [("err", "EA", "m")], "fr": [("ok",)], "fb": [("err", "EB", "m")]}, {"fa": 5, "fr": 40, "fb": 20}))
+    # a branch / iteration whose (successful) last state outputs an object with an "Error" member: an Error Output handed on by
+    # a Catch, or just data that looks like one; its StateExited is logged like any other
+    out.append(S("branch-catch-then-succeed", {"StartAt": "P", "States": {"P": {"Type": "Parallel", "End": True, "Branches": [
+        {"StartAt": "A", "States": {"A": T("fa", Catch=[{"ErrorEquals": ["EA"], "Next": "R"}]), "R": {"Type": "Pass", "End": True}}},
+        {"StartAt": "B", "States": {"B": T("fb")}}]}}}, {"x": 1},
+        {"fa": [("err", "EA", "m")], "fb": [("ok",)]}, {"fa": 5, "fb": 20}))
+    out.append(S("branch-inband-error-output", {"StartAt": "P", "States": {"P": {"Type": "Parallel", "Next": "Z", "Branches": [
+        {"StartAt": "A", "States": {"A": {"Type": "Pass", "Result": {"Error": "inband", "Cause": "data"}, "End": True}}},
+        {"StartAt": "B", "States": {"B": {"Type": "Succeed"}}}]}, "Z": {"Type": "Pass", "End": True}}}, {"Error": "in input"}))
+    out.append(S("map-inband-error-items", {"StartAt": "M", "States": {"M": {"Type": "Map", "ItemsPath": "$.items", "MaxConcurrency": 1, "End": True,
+        "Iterator": {"StartAt": "W", "States": {"W": {"Type": "Wait", "Seconds": 1, "Next": "X"}, "X": {"Type": "Pass", "End": True}}}}}},
+        {"items": [{"Error": "e1"}, {"ok": 1}, {"Error": "Task.Terminated"}]}))
     # a transition that is refused (output over the size limit, or no Next at all): the consequence of the event is then
     # issued by the error path (Catch successor or terminal record + notification), which the acknowledgement must follow
     big = {"big": "x" * 140000, "items": [1, 2]}
